@@ -243,6 +243,9 @@ def run(ctx):
     ctx.need(counter is not None, "COUNTER")
     r17_1(ctx, R, counter)
     r17_3(ctx, R)
+    c02.r2_2(ctx, R)
+    ctx.rule("R2.2", "see C02 R2.2 (shared): a slot is vacated only where its output is handed on -- otherwise the cached counters the "
+                     "hints are built from over-count")
     import c04
     ot = c04.ordered_types(ctx)
     c04.r4_1(ctx, R, ot)
